@@ -183,6 +183,9 @@ func (e *escaper) escapeAction(c context, n *parse.ActionNode) context {
 		}
 	}
 	e.editActionNode(n, s)
+	if c.state == stateAttr {
+		c.attr.afterAction = true
+	}
 	if c.state == stateAttr && c.element.name == "link" && c.attr.name == "rel" {
 		// The rel value of this link element is not known statically.
 		c.attr.ambiguousValue = true
@@ -343,6 +346,7 @@ func join(a, b context, node parse.Node, nodeName string) context {
 	a.element.split = a.element.split || b.element.split
 	a.element.attrSplit = a.element.attrSplit || b.element.attrSplit
 	a.attr.split = a.attr.split || b.attr.split
+	a.attr.afterAction = a.attr.afterAction || b.attr.afterAction
 	// Accumulate the result of context-joining elements and attributes in a, since the
 	// contents of a are always returned.
 	a.element.names = joinNames(a.element.name, b.element.name, a.element.names, b.element.names)
@@ -796,6 +800,14 @@ func contextAfterText(c context, s []byte) (context, int) {
 				err:   errorf(ErrBadHTML, nil, 0, "%q in unquoted attr: %q", s[j:j+1], s[:i]),
 			}, len(s)
 		}
+	}
+	if i > 0 && c.attr.afterAction && c.state == stateAttr && enumAttrVal(c) {
+		// Static text after an action, as in `target="{{.X}}top"`: the value is not one
+		// of the listed words although the action emits one.
+		return context{
+			state: stateError,
+			err:   errorf(ErrEscapeAction, nil, 0, "partial substitutions are disallowed in the %q attribute value context of a %q element", c.attr.name, c.element.name),
+		}, len(s)
 	}
 	if i == len(s) {
 		c.attr.value += string(s)
